@@ -42,7 +42,11 @@ pub fn resolve_trait_name<'a>(genv: &'a PackageTypeEnv, trait_name: &String) -> 
 #[verifier::external_body]
 pub fn is_concrete_dyn_target(ty: &Ty) -> (r: bool) { unimplemented!() }
 // typeck results: only the per-expression coercion lists (the TAST builder wraps the expression once PER recorded coercion)
-pub struct TypeckResults { pub coercions: Vec<Vec<Coercion>> }
+// expr_tys is opaque: its contents are ghost state of an external type (a ghost function of a TRANSPARENT struct would be a function of its
+// visible fields, and a stub that changes it while leaving those fields alone would be contradictory)
+#[verifier::external_body] pub struct ExprTys { _p: u64 }
+impl ExprTys { pub uninterp spec fn at(&self, e: ExprId) -> Ty; }
+pub struct TypeckResults { pub coercions: Vec<Vec<Coercion>>, pub expr_tys: ExprTys }
 pub struct TypeckResultsBuilder { pub results: TypeckResults }
 // representation invariant: an expression carries at most one coercion (a value is wrapped into a dyn object at most once)
 pub open spec fn coercions_wf(r: TypeckResultsBuilder) -> bool {
@@ -74,3 +78,34 @@ pub open spec fn visible(genv: PackageTypeEnv, trait_name: Seq<char>, for_ty: Ty
     genv.cur().trait_env.trait_impls.has(trait_name, for_ty)
     || exists|i: int| 0 <= i < genv.deps.vals().len() && (#[trigger] genv.deps.vals()[i]).trait_env.trait_impls.has(trait_name, for_ty)
 }
+
+// ---- the tail of Typer::check_expr: what the typing table records for an expression that is coerced to dyn (C17 / C04) ----
+impl TypeckResultsBuilder {
+    // the type recorded for expression e (TypeckResults::expr_tys); the TAST builder rebuilds e AT this type and then applies the
+    // recorded coercions around it
+    pub open spec fn ty_at(&self, e: ExprId) -> Ty { self.results.expr_tys.at(e) }
+    #[verifier::external_body]
+    pub fn record_expr_ty(&mut self, e: ExprId, ty: Ty)
+        ensures final(self).ty_at(e) == ty, final(self).results.coercions == old(self).results.coercions,
+    { unimplemented!() }
+}
+#[verifier::external_body] pub struct Constraint { _p: u64 }
+#[verifier::external_body] pub fn constraint_type_equal(a: Ty, b: Ty) -> (r: Constraint) { unimplemented!() }     // Constraint::TypeEqual(a, b)
+impl Typer {
+    #[verifier::external_body] pub fn push_constraint(&mut self, c: Constraint) ensures final(self).results == old(self).results { unimplemented!() }     // the constraint list is not part of the shim
+    // record_expr_result: the expression's own type (plus operator resolutions etc., not modelled)
+    #[verifier::external_body]
+    pub fn record_expr_result(&mut self, e: ExprId, expr: &Expr)
+        ensures final(self).results.ty_at(e) == expr_ty(*expr), final(self).results.results.coercions == old(self).results.results.coercions,
+    { unimplemented!() }
+}
+// C17 "the value is coerced once, with ITS OWN type": when check_expr returns the wrapped value EToDyn { expr: inner, .. }, the table entry
+// of the expression is the type of `inner` — not the dyn type (the builder would rebuild the constructor / call / literal at type `dyn Tr`
+// and the backend panics on it or emits a struct literal of the dyn struct)
+pub open spec fn table_type_ok(r: Expr, recorded: Ty) -> bool {
+    match r {
+        Expr::EToDyn { expr: inner, .. } => recorded == expr_ty(*inner),
+        _ => recorded == expr_ty(r),
+    }
+}
+
